@@ -171,24 +171,27 @@ type point struct {
 }
 
 type World struct {
-	wasOnline bool
-	t0        time.Time
-	t         *testing.T
-	scn       *Scenario
-	sch       *sched
-	client    *mqtt.Client
-	store     *simStore
-	bk        *broker
-	conns     []*simConn
-	actors    []*actor
-	xchs      []*xch
-	log       []Event
-	logH      uint64
-	step      int
-	viol      []Violation
-	curT      *thread
-	gen       int
-	warns     []error
+	spinNow    bool // the only runnable thread loops without blocking and without an observable effect
+	lastEvLen  int
+	lastEvStep int
+	wasOnline  bool
+	t0         time.Time
+	t          *testing.T
+	scn        *Scenario
+	sch        *sched
+	client     *mqtt.Client
+	store      *simStore
+	bk         *broker
+	conns      []*simConn
+	actors     []*actor
+	xchs       []*xch
+	log        []Event
+	logH       uint64
+	step       int
+	viol       []Violation
+	curT       *thread
+	gen        int
+	warns      []error
 
 	choices []int
 	labels  []string
@@ -657,6 +660,7 @@ func (w *World) menu() []alt {
 	}
 	var withDef, faultOnly []entry
 	curEnabled := false
+	spinning := false
 	for _, th := range live {
 		alts, def := w.threadAlts(th)
 		if len(alts) == 0 {
@@ -687,12 +691,22 @@ func (w *World) menu() []alt {
 			copy(withDef, withDef[1:])
 			withDef[len(withDef)-1] = e
 			curEnabled = false
+		} else if w.curT.run >= fairRun && w.step-w.lastEvStep >= fairRun {
+			// the only runnable thread spins without ever blocking (e.g.
+			// lockWrite between a writer's failure and the read routine
+			// noticing it): spinning takes time, so timers do get to fire:
+			// its continuation costs a free switch, which makes the passage
+			// of time the default
+			spinning = true
 		}
 	}
+	w.spinNow = spinning
 	var menu []alt
 	for i, e := range withDef {
 		var sw Cost
 		switch {
+		case spinning:
+			sw = Cost{S: 1} // going on without the passage of time is a deviation
 		case e.th == w.curT && curEnabled:
 		case i == 0:
 		case curEnabled:
@@ -1182,7 +1196,7 @@ func runExec(t *testing.T, scn *Scenario, prefix []int, pr pruner, trace bool) (
 				w.keys[key] = struct{}{}
 			}
 			isIdle := menu[0].label == "tick"
-			if isIdle && idle > 0 && key == lastKey {
+			if isIdle && !w.spinNow && idle > 0 && key == lastKey {
 				// time passes and nothing changes
 				idle++
 				if idle > idleMax {
@@ -1226,6 +1240,9 @@ func runExec(t *testing.T, scn *Scenario, prefix []int, pr pruner, trace bool) (
 			}
 			prev := w.curT
 			menu[k].do()
+			if len(w.log) != w.lastEvLen {
+				w.lastEvLen, w.lastEvStep = len(w.log), w.step
+			}
 			if w.curT == prev && w.curT != nil {
 				w.curT.run++
 			} else if w.curT != nil {
